@@ -255,6 +255,17 @@ class NP(object):
             a[idx] = pysym.real(self.interp.newname('uninitialised'))
         return a
 
+    def clip(self, x, lo, hi):
+        # scalar clip: min(max(x, lo), hi), decided on the path
+        if isinstance(x, _np.ndarray):
+            return _map(lambda v: self.clip(v, lo, hi), x)
+        x = _lift(x)
+        if lo is not None and self.interp.truth(pysym.compare('<', x, _lift(lo))):
+            return _lift(lo)
+        if hi is not None and self.interp.truth(pysym.compare('>', x, _lift(hi))):
+            return _lift(hi)
+        return x
+
     def zeros_like(self, x):
         a = _np.empty(x.shape, dtype=object)
         a.fill(0)
